@@ -49,6 +49,14 @@ class PostgreSQLQueryBuilder(QueryBuilder):
         return newone
 
     @builder
+    def replace_table(self, current_table, new_table):  # type:ignore[no-untyped-def]
+        self._returns = [term.replace_table(current_table, new_table) for term in self._returns]
+        self._distinct_on = [
+            term.replace_table(current_table, new_table) for term in self._distinct_on
+        ]
+        return QueryBuilder.replace_table(self, current_table, new_table)
+
+    @builder
     def distinct_on(self, *fields: str | Term) -> "PostgreSQLQueryBuilder":  # type:ignore[return]
         for field in fields:
             if isinstance(field, str):
